@@ -169,6 +169,16 @@ void small_case(vt::Rng& rng, int64_t icase)
             call.throw_permille = rng.coin(1, 3) ? 250 : 0;
             plan.push_back(call);
         }
+        // often the last calls are raw enqueue()s: the pool is then destroyed while these tasks are still queued or running
+        if (rng.coin())
+        {
+            for (int64_t k = 0, m = rng.range(1, 4); k < m; ++k)
+            {
+                call_t call;
+                call.kind = 2;
+                plan.push_back(call);
+            }
+        }
     }
 
     reset_events();
@@ -199,6 +209,7 @@ void small_case(vt::Rng& rng, int64_t icase)
                                 [c, k](const size_t tnum)
                                 {
                                     emit("Begin", {c, k, -1, -1, static_cast<int64_t>(tnum), 0});
+                                    NANO_VERIF_YIELD(30);
                                     emit("End", {c, k, -1, -1, static_cast<int64_t>(tnum), 0, 0});
                                 });
                             continue;
